@@ -592,6 +592,7 @@ func c13(r *core.Report) {
 	c13Format(r)
 	c13Absent(r)
 	c13ParamDefault(r)
+	c13Probe(r)
 }
 
 // c13Alias: a document-owned payload is never stored into, or mutated through, a request value
@@ -1066,6 +1067,84 @@ func c13ParamDefault(r *core.Report) {
 		}
 		if k == 0 {
 			core.Fail("no assignment to URL.RawQuery found in openapi3filter")
+		}
+	})
+}
+
+// c13Probe: a schema that is visited only to find out whether the value matches it -- the `not`
+// schema, and each alternative of oneOf / anyOf before the match is known -- must not leave its
+// defaults in the value: it is given a copy whenever defaults may be injected.
+func c13Probe(r *core.Report) {
+	p := r.Prog
+	info := p.Pkg("openapi3").TypesInfo
+	r.RunRule("C13.probe", "probing does not change the value: in visitNotOperation, and in the oneOf / anyOf loops of visitXOFOperations, the value handed to the sub-schema's visit is a variable that is assigned a deep copy of the value under `asreq || asrep` — never the visitor's own value parameter", 3, func() {
+		for _, fn := range []string{"Schema.visitNotOperation", "Schema.visitXOFOperations"} {
+			fd := p.DeclOf("openapi3", fn)
+			ff := core.NewFuncFacts(p, info, fd)
+			var valuePrm types.Object
+			for _, f := range fd.Type.Params.List {
+				if _, isIface := info.TypeOf(f.Type).Underlying().(*types.Interface); isIface && len(f.Names) == 1 {
+					valuePrm = info.ObjectOf(f.Names[0])
+				}
+			}
+			k := 0
+			ast.Inspect(fd.Body, func(n ast.Node) bool {
+				c, ok := n.(*ast.CallExpr)
+				if !ok || len(c.Args) != 2 {
+					return true
+				}
+				f := core.CalleeOf(info, c)
+				if f == nil || f.Name() != "visitJSON" {
+					return true
+				}
+				// probing calls only: those whose result decides (assigned / tested), not the final
+				// `_ = x.visitJSON(settings, value)` that injects the matched alternative's defaults
+				isFinal := false
+				for _, anc := range core.PathTo(fd.Body, c) {
+					if as, ok := anc.(*ast.AssignStmt); ok && len(as.Lhs) == 1 {
+						if id, ok := as.Lhs[0].(*ast.Ident); ok && id.Name == "_" {
+							isFinal = true
+						}
+					}
+				}
+				if isFinal {
+					return true
+				}
+				// allOf members all apply: their defaults belong in the value
+				inAllOf := false
+				for _, anc := range core.PathTo(fd.Body, c) {
+					if rs, ok := anc.(*ast.RangeStmt); ok {
+						for f := range ff.Roots(rs.X, false).Fields {
+							if f.Name() == "AllOf" {
+								inAllOf = true
+							}
+						}
+					}
+				}
+				if inAllOf {
+					return true
+				}
+				k++
+				key := fmt.Sprintf("probe:%s#%d", fn, k)
+				arg := ast.Unparen(c.Args[1])
+				id, isID := arg.(*ast.Ident)
+				copied := false
+				if isID && info.ObjectOf(id) != valuePrm {
+					for _, a := range ff.Assigns(info.ObjectOf(id)) {
+						if ce, ok := ast.Unparen(a.Rhs).(*ast.CallExpr); ok && a.Rhs != nil {
+							if g := core.CalleeOf(info, ce); g != nil && g.Name() == "Copy" {
+								copied = true
+							}
+						}
+					}
+				}
+				if copied {
+					r.OK(key, p.Pos(c.Pos()), "the sub-schema is probed with a copy when defaults may be set")
+				} else {
+					r.Bad(key, p.Pos(c.Pos()), fmt.Sprintf("%s probes a sub-schema with %s, the value itself: when defaults are being set, a schema that turns out not to apply (the `not` schema of a valid value, a non-matching alternative) leaves its defaults in the request that is forwarded", fn, core.ExprStr(arg)))
+				}
+				return true
+			})
 		}
 	})
 }
